@@ -367,7 +367,10 @@ def run(ctx):
                     if not any(o.kind == 'call' and ((isinstance(o.val.func, ast.Attribute) and o.val.func.attr == 'reverse') or
                                                      txt(o.val.func) == 'reversed') and o.seq > last_it for o in p.ops) and \
                             not any(o.kind == 'call' and isinstance(o.val.func, ast.Attribute) and o.val.func.attr in ('insert', 'appendleft')
-                                    for o in p.ops):
+                                    for o in p.ops) and \
+                            not any(o.kind == 'sub_load' and isinstance(o.val, ast.Subscript) and isinstance(o.val.slice, ast.Slice) and
+                                    o.val.slice.lower is None and o.val.slice.upper is None and txt(o.val.slice.step) == '-1' and
+                                    o.seq > last_it for o in p.ops):
                         revd = False
             ctx.ob('T9.walk', wf_.fq, 'frames are collected innermost first and reversed before they are returned (most recent call last)',
                    revd, loc=wf_.loc)
